@@ -150,6 +150,9 @@ pub fn minimise(v: &Variant, cfg: &RunCfg, steps: &[Step], target: &Violation, b
             Err(_) => false,
         }
     };
+    if budget == 0 {
+        return (steps.to_vec(), 0);
+    }
     let mut chunk = (cur.len() / 2).max(1);
     while chunk >= 1 && tries < budget {
         let mut i = 0;
@@ -349,14 +352,15 @@ pub fn run_check(spec: &CheckSpec, args: &Args) -> i32 {
     let replay_dir = args.root.join("replays");
     let _ = std::fs::create_dir_all(&replay_dir);
     let mut violation_lines = vec![];
-    let min_budget = if thorough { 400 } else { 150 };
+    // crash enumeration re-executes the history once per crash point: no step minimisation there
+    let min_budget = if spec.id == "C12" { 0 } else if thorough { 400 } else { 150 };
     for (vname, out, viol) in new_violations.iter().take(8) {
         let variant = spec.variants.iter().find(|v| v.name == vname).unwrap();
         let (min_steps, tries) = minimise(variant, &out.cfg, &out.steps, viol, min_budget);
         let min_out = exec_run(variant, out.cfg.clone(), Some(min_steps.clone())).ok();
         let (steps, log, minimised, viol) = match &min_out {
-            Some(m) if m.violations.iter().any(|x| x.clause == viol.clause && x.property == viol.property && x.node == viol.node) => {
-                let mv = m.violations.iter().find(|x| x.clause == viol.clause && x.property == viol.property && x.node == viol.node).unwrap().clone();
+            Some(m) if m.violations.iter().any(|x| x.clause == viol.clause && x.property == viol.property && x.node == viol.node && x.known == viol.known) => {
+                let mv = m.violations.iter().find(|x| x.clause == viol.clause && x.property == viol.property && x.node == viol.node && x.known == viol.known).unwrap().clone();
                 (min_steps, m.log.clone(), true, mv)
             }
             _ => (out.steps.clone(), out.log.clone(), false, viol.clone()),
